@@ -21,7 +21,7 @@ RULE = ("case = DCOP + algorithm + parameters + stop_cycle + schedule + seed; no
         "neighbours and stop_cycle>=2; distinct by sha1(case)")
 ASSUMPTIONS = ["per-channel FIFO delivery; messages buffered before start are re-injected ahead of newer ones"]
 BUDGET = {"quick": {"workers": 8, "examples": 600, "seconds": 45},
-          "thorough": {"workers": 16, "examples": 3000, "seconds": 600}}
+          "thorough": {"workers": 16, "examples": 18000, "seconds": 600}}
 
 
 @st.composite
